@@ -83,10 +83,10 @@ def tlc_catalogue(consts, work):
     return groups, r.distinct
 
 
-def base_consts(tier, igns, sigs=None, pvals=None):
+def base_consts(tier, igns, sigs=None, pvals=None, po=None):
     thorough = tier == 'thorough'
     if sigs is None:
-        sigs = set(range(144)) if thorough else {1, 2, 3, 4, 5, 6, 14, 18, 22, 26, 30, 34, 42, 47} | PO_SIGS
+        sigs = set(range(144)) if thorough else {1, 2, 3, 4, 5, 6, 14, 18, 22, 26, 30, 34, 42, 47} | (PO_SIGS if po is None else set(po))
     if pvals is None:
         pvals = {1, 2, 3, 4, 5, 7} if thorough else {1, 2}
     return dict(SigIds=set(sigs), PVals=set(pvals), MAXP=2, MAXK=2,
@@ -230,11 +230,11 @@ def deviation_runs(rep, pid, work, mcs, groups_extra):
     return devs
 
 
-def check_generic(pid, tier, igns, modes=('keygen', 'std', 'safe'), pvals=None, extras=()):
+def check_generic(pid, tier, igns, modes=('keygen', 'std', 'safe'), pvals=None, extras=(), po=None):
     rep = common.Report(pid, tier)
     work = common.scratch('key')
     rng = random.Random(common.seed() + int(pid[1:]))
-    consts = base_consts(tier, igns, pvals=pvals)
+    consts = base_consts(tier, igns, pvals=pvals, po=po)
     mcs = []
     pc = pair_consts(tier, consts)
     # layer I pair check, split over signature ids to use the cores
@@ -308,14 +308,14 @@ def check_C09(tier):
 def check_C10(tier):
     # extra: a positional string equal to a keyword NAME on signatures whose key keeps positionals (f('x', 1) vs f(x=1)):
     # without a sentinel the flat keys coincide by design, with any sentinel object they must differ
-    return check_generic('C10', tier, {0}, pvals={1, 2, 3, 4, 5, 7} if tier == 'thorough' else {1, 2, 3, 7},
+    return check_generic('C10', tier, {0}, pvals={1, 2, 3, 4, 5, 7} if tier == 'thorough' else {1, 2, 3, 7}, po={49, 73, 122},
                          extras=[dict(SigIds={28, 29}, PVals={1, 6}, KwNames={'x', 'z'}, MAXP=2, MAXK=1),
                                  # one tuple argument against the same values as separate arguments: f((1, 2)) vs f(1, 2)
                                  dict(SigIds={4, 5, 28}, PVals={1, 2, 10}, KwNames={'z'}, MAXP=2, MAXK=1)])
 
 
 def check_C11(tier):
-    return check_generic('C11', tier, set(range(1, 12)))
+    return check_generic('C11', tier, set(range(1, 12)), po={50, 73})
 
 
 # ---------------------------------------------------------------------------------------------
